@@ -39,13 +39,15 @@ M = [
     ("constraint_check_skipped", "Compiler/src/macro.cpp", "      if (found[0].text != requirement.text) return false;", "      if (found[0].t != requirement.t) return false;", ["C09"]),
     ("insertion_index_shift", "Compiler/src/macro.cpp", "            resp.matched[def.template_token_indices[ind]];", "            resp.matched[def.template_token_indices[ind > 1 ? ind - 1 : ind]];", ["C09", "C01"]),
     ("temp_name_without_pass", "Compiler/src/macro.cpp", "std::to_string(def.replacement[0].line) + \"_(M\" +\n                           std::to_string(pass) + \")\";", "std::to_string(def.replacement[0].line) + \"_(M\" +\n                           std::to_string(pass / 2) + \")\";", ["C10"]),
-    ("temp_name_user_writable", "Compiler/src/macro.cpp", "std::string text = cand.text + \":\" + cand.file + \":\" +", "std::string text = \"t\" + cand.text.substr(1) + \"_\" + std::to_string(cand.line) + \"_\" +", ["C10"]),
+    ("temp_name_user_writable", "Compiler/src/macro.cpp", "std::string text = cand.text + \":\" + cand.file + \":\" +\n                           std::to_string(def.replacement[0].line) + \"_(M\" +\n                           std::to_string(pass) + \")\";",
+     "std::string text = \"tmp\" + cand.text.substr(1) + \"_\" + std::to_string(def.replacement[0].line) + \"_M\" + std::to_string(pass);", ["C10"]),
     ("budget_off_by_one", "Compiler/src/macro.cpp", "for (unsigned int pass = 0; pass < passes; pass++) {", "for (unsigned int pass = 0; pass <= passes; pass++) {", ["C11"]),
     ("budget_error_lost", "Compiler/src/macro.cpp", "  if (changed)\n    res.errors.push_back(ParseError{", "  if (changed && passes >= 1024)\n    res.errors.push_back(ParseError{", ["C11"]),
     ("nonlr_only_reduce_reduce", "Compiler/src/macro.cpp", "    if (!gen_res.empty())\n      res.push_back(ParseError{ParseError::MACRO_COMPILE_NON_LR,",
      "    if (std::any_of(gen_res.begin(), gen_res.end(), [](auto &g) { return g.t == g.REDUCE_REDUCE_ERR; }))\n      res.push_back(ParseError{ParseError::MACRO_COMPILE_NON_LR,", ["C12"]),
     ("nonlr_error_at_body", "Compiler/src/macro.cpp", "md.rule.begin()->file, md.rule.begin()->line});", "md.rule.begin()->file, md.replacement.empty() ? md.rule.begin()->line : md.replacement.begin()->line});", ["C12"]),
-    ("first_set_epsilon_lost", "Compiler/src/ParserGenerator/grammar.cpp", "  if (all_epsilons) result.insert(Symbol::Epsilon());\n  return result;", "  if (all_epsilons && string.size() < 3) result.insert(Symbol::Epsilon());\n  return result;", ["C13", "C12"]),
+    ("first_set_stops_after_two", "Compiler/src/ParserGenerator/grammar.cpp", "          if (!sset.contains(Symbol::Epsilon())) {\n            all_contain_epsilons = false;\n            break;\n          }\n        }\n        if (all_contain_epsilons &&",
+     "          if (!sset.contains(Symbol::Epsilon()) || (&symbol - &alternative[0]) >= 2) {\n            all_contain_epsilons = false;\n            break;\n          }\n        }\n        if (all_contain_epsilons &&", ["C13"]),
     ("reduce_pops_values_only", "Compiler/include/ParserGenerator/lrparser.hpp", "        int s_prime = states.back();\n        states.push_back(jump[s_prime][left]);", "        int s_prime = states.back();\n        if (beta > 3) s_prime = states[states.size() - 2];\n        states.push_back(jump[s_prime][left]);", ["C13"]),
     ("include_line_of_includer", "Compiler/src/scan.cpp", "  yyset_lineno(1, s.s);", "  yyset_lineno(key.size() > 6 ? 0 : 1, s.s);", ["C14", "C15"]),
     ("recursive_include_requests_file", "Compiler/src/scan.cpp", "                          \"file '\" + nfn + \"' is included recursively\", s.f,\n                          t.line});", "                          \"file '\" + nfn + \"' is included recursively\", s.f,\n                          t.line, nfn});", ["C15"]),
